@@ -4,7 +4,7 @@ import os
 
 VERIF = os.path.dirname(os.path.dirname(os.path.abspath(__file__)))
 
-BASE_NOTE = ("trusted: the simulator (kernel, seams, SimSlurm, SimSoftFileLock model, scenario generator, reference "
+BASE_NOTE = ("trusted: the simulator (kernel, seams, SimSlurm, SimSoftFileLock model - compared with the installed filelock by `jv.selftest lockmodel` -, scenario generator, reference "
              "models); assumed: coherent shared file system, atomic O_EXCL/rename/unlink/<=8KiB flush, single-node "
              "batches; sampling over seeded scenarios x schedules x faults, not enumeration")
 
